@@ -309,6 +309,7 @@ class Program:
                 default = None
                 factory = None
                 metadata = None
+                flags = {}
                 v = st.value
                 if isinstance(v, ast.Call) and _call_name(v) == "field":
                     for kw in v.keywords:
@@ -318,9 +319,16 @@ class Program:
                             factory = kw.value
                         elif kw.arg == "metadata":
                             metadata = kw.value
+                        elif kw.arg in ("compare", "hash", "init"):
+                            try:
+                                flags[kw.arg] = ast.literal_eval(kw.value)
+                            except Exception:
+                                flags[kw.arg] = None
                 elif v is not None:
                     default = v
-                ci.fields.append(FieldInfo(st.target.id, ci, ann, default, factory, metadata, st))
+                fi_ = FieldInfo(st.target.id, ci, ann, default, factory, metadata, st)
+                fi_.flags = flags
+                ci.fields.append(fi_)
             elif isinstance(st, ast.FunctionDef):
                 ci.methods[st.name] = self._function(st, m, ci, None)
         return ci
